@@ -37,6 +37,10 @@ type KnownFinding struct {
 
 const verifDir = "/verif"
 
+// outDir: where evidence, replays and work files go (/verif unless VERIF_OUT
+// redirects a seeded-change evaluation elsewhere).
+var outDir = envOr("VERIF_OUT", verifDir)
+
 func loadProps() (map[string]*PropSpec, error) {
 	b, err := os.ReadFile(filepath.Join(verifDir, "harness", "props.json"))
 	if err != nil {
@@ -278,7 +282,7 @@ func cmdCheck(args []string) {
 	}
 	loadS := time.Since(t0).Seconds()
 
-	workDir := filepath.Join(verifDir, "work", fmt.Sprintf("%s-%d", prop, os.Getpid()))
+	workDir := filepath.Join(outDir, "work", fmt.Sprintf("%s-%d", prop, os.Getpid()))
 	os.MkdirAll(workDir, 0o755)
 	defer os.RemoveAll(workDir)
 	rp := &replayer{workDir: workDir, bins: map[string]string{}, errs: map[string]string{}, harnessDir: harnessDir}
@@ -377,7 +381,7 @@ func cmdCheck(args []string) {
 			}
 			seen[key] = true
 			h := sha1.Sum([]byte(spec.Name + key))
-			dir := filepath.Join(verifDir, "replays", prop, fmt.Sprintf("%s-%s-%x", spec.Name, sanitize(v.Label), h[:4]))
+			dir := filepath.Join(outDir, "replays", prop, fmt.Sprintf("%s-%s-%x", spec.Name, sanitize(v.Label), h[:4]))
 			os.MkdirAll(dir, 0o755)
 			witPath := filepath.Join(dir, "witness.json")
 			meta := map[string]interface{}{"property": prop, "harness": spec.Name, "pkg": spec.Pkg, "kind": v.Kind, "label": v.Label, "msg": v.Msg, "where": v.Where, "known": v.Known, "trace": v.Trace}
@@ -465,9 +469,9 @@ func cmdCheck(args []string) {
 		"known_findings_reported":       knownLines,
 		"load_s":                        round2(loadS),
 	}
-	os.MkdirAll(filepath.Join(verifDir, "evidence"), 0o755)
+	os.MkdirAll(filepath.Join(outDir, "evidence"), 0o755)
 	eb, _ := json.MarshalIndent(ev, "", " ")
-	os.WriteFile(filepath.Join(verifDir, "evidence", prop+".json"), eb, 0o644)
+	os.WriteFile(filepath.Join(outDir, "evidence", prop+".json"), eb, 0o644)
 
 	fmt.Printf("check %s tier=%s: harnesses=%d paths=%d instrs=%d obligations=%d unsat=%d queries=%d replays=%d wall=%.1fs\n",
 		prop, *tier, len(specs), totalPaths, totalSteps, totalAsserts, totalUnsat, totalQueries, tracesValidated, time.Since(t0).Seconds())
@@ -541,7 +545,7 @@ func cmdReplay(dir string) {
 	var wit []WitnessEntry
 	wb, _ := os.ReadFile(filepath.Join(dir, "witness.json"))
 	json.Unmarshal(wb, &wit)
-	workDir := filepath.Join(verifDir, "work", fmt.Sprintf("replay-%d", os.Getpid()))
+	workDir := filepath.Join(outDir, "work", fmt.Sprintf("replay-%d", os.Getpid()))
 	os.MkdirAll(workDir, 0o755)
 	defer os.RemoveAll(workDir)
 	rp := &replayer{workDir: workDir, bins: map[string]string{}, errs: map[string]string{}, harnessDir: filepath.Join(verifDir, "harness")}
